@@ -377,6 +377,34 @@ def r5_ini_value_passthrough(cx):
                    construct=short(stmt_of(bad[0]) if bad and not isinstance(bad[0], ast.stmt) else bad[0], 100) if bad else "%s -> %s(%s=%s)" % (fname, ctor, kwname, var))
 
 
+PURE_HELPERS = ("keyword_search", "split_kv_pairs", "get_active_lines", "parse_fixed_table", "parse_delimited_table", "calc_offset", "optlist_to_dict", "unsplit_lines")
+
+
+def r6_stateless_helpers(cx):
+    """'returns exactly the rows / pairs / cells': the shared helpers are functions of their arguments.  A module-level table that one call fills and a
+    later call reads (a translation cache shared between tables of the same layout, a remembered header) makes the answer depend on earlier calls."""
+    cx.rule("C15.R6", "the shared text helpers keep no state between calls (no module-level table is written or consulted)", floor=5)
+    m = cx.repo.module("insights.parsers")
+    for q in PURE_HELPERS:
+        if not m.has(q):
+            continue
+        fn = m.get(q)
+        bad = []
+        for f in feat.region(m, fn):
+            local = set(params(f)) | set(t.id for a in ast.walk(f) for t in ast.walk(a) if isinstance(t, ast.Name) and isinstance(t.ctx, ast.Store))
+            for x in ast.walk(f):
+                tgt = None
+                if isinstance(x, ast.Subscript) and isinstance(x.ctx, (ast.Store, ast.Del)):
+                    tgt = x.value
+                elif isinstance(x, ast.Call) and isinstance(x.func, ast.Attribute) and x.func.attr in feat.MUTATORS:
+                    tgt = x.func.value
+                elif isinstance(x, ast.Global):
+                    bad.append(x)
+                if isinstance(tgt, ast.Name) and tgt.id not in local and m.top.get(tgt.id) is not None:
+                    bad.append(x)
+        cx.require(not bad, bad[0] if bad else fn, "%s neither fills nor consults a module-level table" % q, construct=short(bad[0], 80) if bad else "def %s" % q)
+
+
 def run(cx):
     cx.extra["explanation"] = ("C15: normalisation-before-lookup taint rule over every IniConfigFile accessor (option -> lower, section -> strip) against the builder's stored keys, "
                                "matcher table / conjunction rule of keyword_search, first-separator and comment rules, slicing/zip shape of the two table helpers.")
@@ -386,3 +414,4 @@ def run(cx):
     cx.guard(r3_kv_and_comments)
     cx.guard(r4_tables)
     cx.guard(r5_ini_value_passthrough)
+    cx.guard(r6_stateless_helpers)
